@@ -53,6 +53,13 @@ def mon_mapping_asset(case, ev, prefix='asset'):
     if T is not None:
         case.check(prefix + '.steps_on_grid', bool(np.all(ts >= 0) and np.all(ts < T) and np.all(ts == np.round(ts))), **who, T=T,
                    tmin=float(ts.min()), tmax=float(ts.max()))
+    # every row names a step of the asset's own window: the steps of the restricted grid the asset held when its set-up returned (all kinds of
+    # rows - dispatch, internal, booleans; assets with an own coarser frequency and wrappers around other assets have other step sets)
+    rI = ev.extra.get('restricted_I')
+    if rI is not None and ev.args.get('cls') not in ('StructuredAsset', 'LinkedAsset', 'ScaledAsset') and not getattr(ev.obj, 'freq', None):
+        inside = set(int(t) for t in ts) <= set(rI)
+        case.check(prefix + '.steps_inside_own_window', inside, nonvacuous=(T is not None and len(rI) < T), **who, outside=sorted(set(int(t) for t in ts) - set(rI))[:6],
+                   window_steps=[min(rI), max(rI)] if rI else [])
     # unmapped variables must be inert
     if ok_int and idx.max() < n:
         mapped = np.zeros(n, bool); mapped[idx.astype(int)] = True
@@ -81,7 +88,7 @@ def mon_mapping_asset(case, ev, prefix='asset'):
         per_node = {}
         for idx, node, t in zip(d.index, d['node'], d['time_step']):
             per_node.setdefault(str(node), {}).setdefault(int(idx), []).append(int(t))
-        sets = [{k: sorted(v) for k, v in dd.items()} for dd in per_node.values()]
+        sets = [{k: sorted(set(v)) for k, v in dd.items()} for dd in per_node.values()]        # (a node may be listed twice: steps as a set)
         okm = len(per_node) == len(set(obj.node_names)) and all(x == sets[0] for x in sets[1:])
         bad = None
         if not okm and len(sets) > 1:
